@@ -1809,6 +1809,7 @@ pub const TAGS_SYNC: &[&str] = &[
     "sync_missing",
     "step_time",
     "oos_code_ran",
+    "code_before_sync",
     "error_class",
     "term_result",
 ];
@@ -1824,9 +1825,13 @@ pub fn c18(tier: &str) -> Vec<Family> {
         .script(2, vec![sched_self(SKind::Once, When::Rel(1), 1, 0), send(0, 1)])
         .out(vec![to(1)]);
     let b = NodeSpec::new("B", 1).script(1, vec![Op::ReadTime]);
-    let base = BenchSpec::new(vec![a, b]);
+    let mut base = BenchSpec::new(vec![a, b]);
+    // An event source whose connections evaluate user closures (map / filter_map).
+    base.srcs = vec![vec![tom(0, Mode::Map(500)), tom(1, Mode::Filter(0))]];
     use Cmd::*;
     let alpha: Vec<Cmd> = vec![
+        SchedSrc { src: 0, kind: SKind::Periodic(1), when: When::Rel(1), tag: 1, val: 6, slot: 0 },
+        SchedSrc { src: 0, kind: SKind::Once, when: When::Rel(2), tag: 1, val: 8, slot: 0 },
         Step,
         StepUntil(When::Rel(1)),
         StepUntil(When::Rel(2)),
@@ -1853,10 +1858,19 @@ pub fn c18(tier: &str) -> Vec<Family> {
         }
     }
     let mut sc = vec![];
+    // With a tolerance: both orders of set_clock / set_clock_tolerance.
+    let mut clocks2: Vec<(String, ClockSpec, Option<u64>, bool)> = vec![];
     for (cname, clock, tol) in &clocks {
+        clocks2.push((cname.clone(), clock.clone(), *tol, false));
+        if tol.is_some() {
+            clocks2.push((format!("{}+tolerance_first", cname), clock.clone(), *tol, true));
+        }
+    }
+    for (cname, clock, tol, tol_first) in &clocks2 {
         let mut sp = base.clone();
         sp.clock = clock.clone();
         sp.tolerance_ns = *tol;
+        sp.tolerance_first = *tol_first;
         let sp = Arc::new(sp);
         // The full sequence set for the nominal clock, a thinned one for the others.
         for (i, cmds) in sequences.iter().enumerate() {
